@@ -236,6 +236,65 @@ VersionMonotone == [][CurVer' >= CurVer]_vars
 ChainIsFunction == Done1 => s = RunMig(l0)
 
 ---------------------------------------------------------------------------
+(* The command line front end (signac/__main__.py): every command is its own process with cwd = the project directory
+   (or a sub-directory of it).  Each command is a COMPOSITION of the operators above; st = exit status.
+     signac job / find / init / ...   the gate: exit 1 and nothing touched unless the version is the supported one
+     signac migrate -y [-r <project>] (cwd = the project, or any directory with the project named by -r)
+                                      newer version: message, exit 0, nothing touched (CAL_CliNewerExit0);
+                                      up to date: "Nothing to do", exit 0;  otherwise apply_migrations = RunMig,
+                                      exit 1 iff it raised
+     signac migrate  /  signac -y migrate
+                                      without the sub-command's own -y the question is asked; it cannot be answered
+                                      (the child's stdin is at end of file): exit 1, nothing touched.  The GLOBAL -y
+                                      is overridden by the sub-command's default (argparse) - CAL_GlobalYesIgnored
+     signac config --local show|verify|set   read / write .signac/config of the CURRENT directory only (no search):
+                                      in a legacy layout there is none: show/verify print nothing (exit 0), set fails
+                                      (exit 1, nothing written).  `set workspace_dir x` stores an entry nothing reads
+                                      (CAL_WorkspaceDirIgnored: schema 2 always uses 'workspace'); `set schema_version v`
+                                      changes what the gate sees; `show schema_version` prints the declared version,
+                                      "1" when there is no entry (the configuration's default)                        *)
+CliGate(l) == [st |-> IF UpToDate(l) THEN 0 ELSE 1, post |-> OpenEffect(l)]
+CliMigrate(l, yes) ==
+  IF Num(l.ver) > 2 THEN [st |-> 0, msg |-> "newer", post |-> l]
+  ELSE IF UpToDate(l) THEN [st |-> 0, msg |-> "uptodate", post |-> l]
+  ELSE IF ~yes THEN [st |-> 1, msg |-> "not-confirmed", post |-> l]
+  ELSE LET a == RunMig(l) IN [st |-> IF a.res = "ok" THEN 0 ELSE 1, msg |-> a.res, post |-> a.L]
+CliFind(l) == IF UpToDate(l) THEN [st |-> 0, n |-> IF l.dirs.workspace = "jobs" THEN l.njobs ELSE 0, post |-> OpenEffect(l)]
+              ELSE [st |-> 1, n |-> 0, post |-> l]
+CliConfigSet(l, key, val) ==
+  IF l.where # "cfg" THEN [st |-> 1, post |-> l]
+  ELSE [st |-> 0, post |-> IF key = "workspace_dir" THEN [l EXCEPT !.wsKey = val] ELSE [l EXCEPT !.ver = val]]
+CliConfigShowVer(l) == IF l.where # "cfg" THEN "" ELSE IF l.ver = "absent" THEN "1" ELSE l.ver
+ConfigSets == {<<"workspace_dir", "custom">>, <<"schema_version", "1">>, <<"schema_version", "2">>, <<"schema_version", "3">>}
+
+(* what the user of the command line is promised (state predicates over the layout of the behaviour) *)
+CliRefuse == ~UpToDate(l0) => CliGate(l0).st = 1 /\ CliGate(l0).post = l0 /\ CliFind(l0).st = 1 /\ CliFind(l0).post = l0
+CliNotConfirmedNoChange == CliMigrate(l0, FALSE).post = l0
+CliMigratePreserves ==
+  Legacy(l0) /\ ~Colliding(l0) /\ ~SelfColliding(l0) =>
+    LET m == CliMigrate(l0, TRUE) IN
+    /\ m.st = 0 /\ m.post = RunReq(l0).L /\ UpToDate(m.post)
+    /\ CliMigrate(m.post, TRUE) = [st |-> 0, msg |-> "uptodate", post |-> m.post]         \* the second run is a no-op
+    /\ CliFind(m.post).st = 0 /\ CliFind(m.post).n = l0.njobs
+CliCollisionRefused ==
+  Legacy(l0) /\ Colliding(l0) => CliMigrate(l0, TRUE).st = 1 /\ CliMigrate(l0, TRUE).post.dirs = l0.dirs
+\* a configuration entry written through the command line never makes jobs unreachable SILENTLY: afterwards the
+\* project lists the same jobs, or every command refuses it loudly (exit 1)
+CliConfigNeverHides ==
+  \A kv \in ConfigSets : LET l2 == CliConfigSet(l0, kv[1], kv[2]).post IN
+                          CliFind(l2).st = 1 \/ CliFind(l0).st = 1 \/ CliFind(l2).n = CliFind(l0).n
+
+CliCaseOf(l) ==
+  LET m   == CliMigrate(CliGate(l).post, TRUE)          \* the history: ... the gate commands first, then migrate -y
+      fix == m.st = 1 /\ Legacy(l) /\ Colliding(m.post)
+      m2  == CliMigrate(IF fix THEN Resolved(m.post) ELSE m.post, TRUE)
+      SetRec(kv) == LET c == CliConfigSet(l, kv[1], kv[2]) IN
+                    [key |-> kv[1], val |-> kv[2], st |-> c.st, post |-> c.post, find |-> CliFind(c.post)]
+  IN [l0 |-> l, notconfirmed |-> CliMigrate(l, FALSE), gate |-> CliGate(l), mig |-> m, resolved |-> fix, mig2 |-> m2,
+      find |-> CliFind(m2.post), findbefore |-> CliFind(l), showver |-> CliConfigShowVer(l),
+      sets |-> [i \in 1..Len(SetToSeq(ConfigSets)) |-> SetRec(SetToSeq(ConfigSets)[i])]]
+
+---------------------------------------------------------------------------
 (* export: (layout, operation) -> expected outcome and expected layouts *)
 CaseOf(l, o) ==
   IF o \in OpenOps
@@ -249,9 +308,11 @@ CaseOf(l, o) ==
            reqres |-> RunReq(l).res, reqpost |-> RunReq(l).L]
 Export == /\ TLCGet("level") >= 0
           /\ IF MODE = "file"
-             THEN ndJsonSerialize(IOEnv.CASES_OUT, [i \in 1..Len(FileIn) |-> CaseOf(FileIn[i].l0, FileIn[i].op)])
+             THEN /\ ndJsonSerialize(IOEnv.CASES_OUT, [i \in 1..Len(FileIn) |-> CaseOf(FileIn[i].l0, FileIn[i].op)])
+                  /\ ndJsonSerialize(IOEnv.CLI_OUT, [i \in 1..Len(FileIn) |-> CliCaseOf(FileIn[i].l0)])
              ELSE LET ls == SetToSeq(Layouts)
                       os == SetToSeq(Ops)
-                  IN ndJsonSerialize(IOEnv.CASES_OUT,
-                       [k \in 1..(Len(ls) * Len(os)) |-> CaseOf(ls[((k - 1) \div Len(os)) + 1], os[((k - 1) % Len(os)) + 1])])
+                  IN /\ ndJsonSerialize(IOEnv.CASES_OUT,
+                          [k \in 1..(Len(ls) * Len(os)) |-> CaseOf(ls[((k - 1) \div Len(os)) + 1], os[((k - 1) % Len(os)) + 1])])
+                     /\ ndJsonSerialize(IOEnv.CLI_OUT, [k \in 1..Len(ls) |-> CliCaseOf(ls[k])])
 =============================================================================
